@@ -140,6 +140,34 @@ def check_interp(case, stats):
             raise Violation(case, "data table row made of the header's placeholders %r (values %r): cells %r, literal substitution gives %r" % (order, vs, cm, [L("<%s>" % h) for h in order]))
 
 
+def check_collisions(case, stats):
+    """ONE compiler for several examples tables whose header names differ but would coincide when glued together with some separator
+    ('a, b' + 'c' versus 'a' + 'b, c'), in two documents and in two outlines of one document: each table is expanded with its own columns"""
+    from vlib import gh
+    sep = case["sep"]
+    tables = [(["a" + sep + "b", "c"], ["1", "2"]), (["a", "b" + sep + "c"], ["3", "4"]), (["a", "b", "c"], ["5", "6", "7"]), (["a" + sep + "b" + sep + "c"], ["8"])]
+    stats.case(("collisions", sep), True, sample=case)
+    docs = []
+    for hs, vs in tables:
+        ts = ["<%s>" % h for h in hs] + ["<a> <b> <c>", "<a%sb> / <b%sc>" % (sep, sep)]
+        docs.append((build({"headers": hs, "values": vs, "templates": ts}), hs, vs, ts))
+    for order in (docs, docs[::-1], docs[1:] + docs[:1]):
+        comp = gh.Compiler(gh.IdGenerator())
+        for (doc, nid, nbg), hs, vs, ts in order:
+            pk = comp.compile(__import__("json").loads(__import__("json").dumps(doc)))
+            got = [s_["text"] for s_ in pk[0]["steps"][nbg:nbg + len(ts)]]
+            want = [literal(t, hs, vs) for t in ts]
+            if got != want:
+                raise Violation(case, "one compiler, several tables: table with headers %r values %r gives step texts %r, literal substitution %r (earlier tables: %r)" % (
+                    hs, vs, got, want, [o[1] for o in order]))
+
+
+def unit_collisions(a):
+    stats = Stats()
+    sweep(stats, [{"sub": "collisions", "sep": sp} for sp in (", ", ",", "|", " ", "", "\t", ":", ";", "/", "\x1f", "\x00", "><", "> <", "-", "_", ".")], check_collisions)
+    return stats
+
+
 def templates_for(h):
     p = "<" + h + ">"
     out = [p, "x" + p + "y" + p, "<" + p + ">", "<other>", "plain " + h, h + "> <" + h, "<" + h.swapcase() + ">", "< " + h + " >", p + p, p + p + p, (p + " ") * 9, (p + "\n") * 20 + "end"]
@@ -257,6 +285,8 @@ def unit_modes(a):
 
 
 def replay(case, stats):
+    if case["sub"] == "collisions":
+        return check_collisions(case, stats)
     if case["sub"] == "modes":
         from .textdocs_impl import proj_c09
         return pc.check_modes(case, stats, proj_c09, "C09 projection of the pickles")
@@ -275,6 +305,7 @@ def run(ctx):
     ctx.units("alphabet-exhaustive", unit_alpha, [{"shard": i, "nshards": ns, "sample": 0, "seed": ctx.seed} for i in range(ns)], procs=ns)
     ctx.units("two-columns-exhaustive", unit_two_columns, [{"shard": i, "nshards": ns} for i in range(ns)], procs=ns)
     ctx.units("unicode-hypothesis", unit_hyp, [{"n": 1050 if q else 8000, "seed": ctx.seed, "shard": i} for i in range(8 if q else 16)], procs=16)
+    ctx.units("header-name-collisions-one-compiler", unit_collisions, [{}])
     ctx.units("interpreter-modes", unit_modes, [{}])
     ctx.units("compiler-reuse", unit_reuse, [{"n": 450 if q else 4000, "seed": ctx.seed, "shard": i} for i in range(8 if q else 16)], procs=16)
     from . import textdocs
